@@ -881,6 +881,14 @@ class FileHashStore(HashStore):
                         objects_to_delete.append(
                             self._rename_path_for_deletion(cid_ref_abs_path)
                         )
+                        # The data object may have been stored since it was found missing;
+                        # this pid was its last reference, so it is deleted with it
+                        if self._exists("objects", pid_refs_cid):
+                            objects_to_delete.append(
+                                self._rename_path_for_deletion(
+                                    self._get_hashstore_data_object_path(pid_refs_cid)
+                                )
+                            )
                 finally:
                     self._release_object_locked_cids(pid_refs_cid)
 
